@@ -506,6 +506,67 @@ pub fn check(env: &Env, q: &Aq, style: u8, conj: bool) -> Option<(String, String
     None
 }
 
+/// the single literal a parse yields, if it is exactly one unquoted literal on field `s`
+fn single_literal(ast: &tantivy_query_grammar::UserInputAst) -> Option<String> {
+    use tantivy_query_grammar::{UserInputAst, UserInputLeaf};
+    match ast {
+        UserInputAst::Leaf(l) => match &**l {
+            UserInputLeaf::Literal(lit) if lit.field_name.as_deref() == Some("s") && lit.slop == 0 && !lit.prefix => Some(lit.phrase.clone()),
+            _ => None,
+        },
+        UserInputAst::Clause(v) if v.len() == 1 && v[0].0.is_none() => single_literal(&v[0].1),
+        _ => None,
+    }
+}
+
+/// Escapes: a character that can never stand unescaped inside a word (at the start, in the middle and at the
+/// end the bare spelling does not parse to the one literal containing it) is written with a backslash in
+/// front of it; that spelling parses, in both parsers and at every place, to exactly the literal - the
+/// backslash is consumed. (Characters that are special only at some places, like a leading '-' or '<', are
+/// left out: the grammar's documentation does not say how their escapes read.)
+pub fn check_escapes(st: &mut Stats) -> Vec<Violation> {
+    let mut out = vec![];
+    let mut chars: Vec<char> = (0x20u8..0x7f).map(|b| b as char).filter(|c| !c.is_ascii_alphanumeric()).collect();
+    chars.extend(['\t', '\u{a0}', '\u{3000}', 'é']);
+    for c in chars {
+        let places = [("", "a"), ("a", "a"), ("a", ""), ("ab", "cd")];
+        let bare_ok_somewhere = places.iter().any(|(pre, post)| {
+            let word = format!("{pre}{c}{post}");
+            let bare = format!("s:{word}");
+            catch_unwind(AssertUnwindSafe(|| tantivy_query_grammar::parse_query(&bare).ok().and_then(|a| single_literal(&a)))).unwrap_or(None).as_deref() == Some(word.as_str())
+        });
+        if bare_ok_somewhere {
+            st.count("escape_not_needed");
+            continue;
+        }
+        for (pos, (pre, post)) in places.iter().enumerate() {
+            let word = format!("{pre}{c}{post}");
+            let bare = format!("s:{word}");
+            let escaped = format!("s:{pre}\\{c}{post}");
+            st.eval();
+            st.count("escape_cases");
+            st.nontrivial(&("escape", c, pos));
+            let strict = catch_unwind(AssertUnwindSafe(|| tantivy_query_grammar::parse_query(&escaped).ok().and_then(|a| single_literal(&a))));
+            let lenient = catch_unwind(AssertUnwindSafe(|| {
+                let (a, errs) = tantivy_query_grammar::parse_query_lenient(&escaped);
+                if errs.is_empty() { single_literal(&a) } else { None }
+            }));
+            for (name, got) in [("strict", strict), ("lenient", lenient)] {
+                let got = got.unwrap_or(None);
+                if got.as_deref() != Some(word.as_str()) {
+                    out.push(Violation::new(
+                        "escape_does_not_yield_literal",
+                        format!("{name} parser: {bare:?} does not parse to the literal {word:?} (the character needs escaping there), and the escaped spelling {escaped:?} parses to {got:?} instead of the literal {word:?}"),
+                        json!({"kind":"escape","char":c.to_string(),"pos":pos}),
+                    ));
+                    break;
+                }
+            }
+        }
+    }
+    out
+}
+
 pub fn run_family(ctx: &Ctx, thorough: bool) -> (Stats, bool) {
     let mut qs = leaves();
     qs.extend(compounds(thorough));
@@ -532,10 +593,18 @@ pub fn run_family(ctx: &Ctx, thorough: bool) -> (Stats, bool) {
             }
         });
     });
+    let mut st = st;
+    for v in check_escapes(&mut st) {
+        st.violation(v);
+    }
     (st, done == nq)
 }
 
 pub fn replay(case: &serde_json::Value) -> Vec<Violation> {
+    if case["kind"] == "escape" {
+        let mut st = Stats::default();
+        return check_escapes(&mut st).into_iter().filter(|v| v.case["char"] == case["char"] && v.case["pos"] == case["pos"]).collect();
+    }
     let Ok(q) = serde_json::from_value::<Aq>(case["query"].clone()) else { return vec![] };
     let env = env();
     check(&env, &q, case["style"].as_u64().unwrap_or(0) as u8, case["conj"].as_bool().unwrap_or(false))
